@@ -356,6 +356,8 @@ def _fin_doc(d, c, bare_ok=True):
         if not lines or not all(l == "" or l[0].isalpha() for l in lines) or not bare_ok:
             form = "leader"
     out = {"lines": lines, "form": form, "marker": marker}
+    if d.get("close"):
+        out["close"] = d["close"]       # "inline": the closing '#]]' ends the last text line
     if d.get("indent") is not None:
         out["indent"] = d["indent"] if form != "bare" else ""
     return out
